@@ -160,6 +160,23 @@ def x_tax(report):
     if "return LineageDB(assignments, ranks)" not in ld:
         raise Unrecognised("LineageDB.load", "return statement changed")
     out["lin_ranks_initialised"] = lin_ranks_init
+    # do make_full_summary / make_human_summary sort the shared per-rank lists in place (finding C19.5)?
+    mh = norm(ast.unparse(_method(tree, "QueryTaxResult", "make_human_summary")))
+    mf = norm(ast.unparse(_method(tree, "QueryTaxResult", "make_full_summary")))
+    h_in = "display_rank_results = self.summarized_lineage_results[display_rank] display_rank_results.sort(key=lambda res: -res.f_weighted_at_rank)" in mh
+    h_cp = "display_rank_results = sorted(self.summarized_lineage_results[display_rank], key=lambda res: -res.f_weighted_at_rank)" in mh
+    f_in = "rank_results = self.summarized_lineage_results[rank] rank_results.sort(key=lambda res: -res.fraction)" in mf
+    f_cp = "rank_results = sorted(self.summarized_lineage_results[rank], key=lambda res: -res.fraction)" in mf
+    if h_in and f_in and not h_cp and not f_cp:
+        sort_in_place = True
+    elif h_cp and f_cp and not h_in and not f_in:
+        sort_in_place = False
+    else:
+        raise Unrecognised("make_full_summary/make_human_summary", "the sorts are not one of the two modelled shapes (both in place, or both on a copy)")
+    mk = norm(ast.unparse(_method(tree, "QueryTaxResult", "make_kreport_results")))
+    if "if unclassified_recorded: continue else: unclassified_recorded = True kreport_results.append(kresD)" not in mk:
+        raise Unrecognised("make_kreport_results", "the unclassified-once loop changed")
+    out["writers_sort_in_place"] = sort_in_place
     # get_ident (module level)
     gi = None
     for node in tree.body:
@@ -191,6 +208,8 @@ def taxRepairStrict : Bool := {'true' if strict else 'false'}
 /-- does `LineageDB.load` assign `ranks` in its LIN branch before reading rows (false = a header-only LIN file
     ends in UnboundLocalError, finding C19.4) -/
 def taxLinRanksInit : Bool := {'true' if lin_ranks_init else 'false'}
+/-- do csv_summary / human sort the shared `summarized_lineage_results` lists in place (true) or a copy (false)? -/
+def taxWritersSortInPlace : Bool := {'true' if sort_in_place else 'false'}
 """
 
 
